@@ -255,6 +255,7 @@ def run(tier):
     loadervc.check_data_loader(rep, 'C12')          # the emitted machine-code loader, executed over the ISA contracts
     loadervc.check_bank_loader(rep, 'C12')          # the 128K bank loader for every subset of banks
     fastloadvc.check_fast_load(rep, 'C12')          # tap2sna's stand-in for LD-BYTES puts block[1+k] at IX+k
+    fastloadvc.check_block_selection(rep, 'C12')    # which tape block that stand-in takes: the next one whose data has not begun (and the loop ends)
     from props import edgevc
     edgevc.check_fast_load_bookkeeping(rep, 'C12')  # where the tape stands after a fast-loaded block (the last one stops the tape)
     loadervc.crosscheck_loaders(rep, 'C12')
@@ -317,6 +318,14 @@ def replay(path):
         d = loadervc.concrete_bank_loader(case['banks'], case['loader_addr'], case['start'], case['out7ffd'])
         print(d)
         if d:
+            print('VIOLATION property=C12 replay=%s' % path)
+            return 1
+        return 0
+    if 'block_selection' in case or 'blocks' in case:
+        from props import fastloadvc
+        r = fastloadvc.concrete_selection() if 'blocks' in case else fastloadvc.block_selection_scenarios(tuple(case['block_selection']))
+        print(r['diffs'][:2])
+        if r['diffs']:
             print('VIOLATION property=C12 replay=%s' % path)
             return 1
         return 0
